@@ -65,7 +65,7 @@ func runC10(rep *TReport, raw json.RawMessage) {
 	w.Config.ClientSecretsHasher = &fosite.BCrypt{Config: &fosite.Config{HashCost: 4}}
 	// the other client (its secret must never authenticate X)
 	other := newClient("Y", false)
-	other.RedirectURIs = []string{"https://y.example/cb"}
+	other.RedirectURIs = []string{"https://y.example/cb", "https://x.example/cb"} // both clients may use X's redirect URI: a request of X is a valid request of Y, too
 	other.Secret = c10Hash(c10Secrets["other_client"])
 	w.Mem.Clients["Y"] = other
 	RedirectOf["X"] = "https://x.example/cb"
